@@ -2,11 +2,12 @@
 """Development aid: run all quick checks against every filed seeded change (or refactoring) in parallel scratch
 worktrees (VERIF_REPO override) and print which checks fire.  The recorded results in seeded/*/meta.json come from
 tools/seed_verify.py (patch applied to /repo itself), not from this scan.
-usage: tools/seed_scan.py [--refactors] [--only substr] [--slots N] [--props C01,C02]"""
+usage: tools/seed_scan.py [--refactors] [--only substr] [--slots N] [--props C01,C02] [--merge]   (--only is a regex)"""
 import concurrent.futures
 import glob
 import json
 import os
+import re
 import subprocess
 import sys
 
@@ -69,7 +70,7 @@ def main():
         if g:
             parts = d.split("/")
             sid = "%s-%s" % (parts[2], parts[-2])
-        if only and only not in sid:
+        if only and not re.search(only, sid):
             continue
         items.append((sid, d))
     slots = max(1, min(slots, len(items)))
@@ -84,6 +85,14 @@ def main():
     finally:
         for i in range(slots):
             subprocess.run(["git", "-C", REPO, "worktree", "remove", "--force", "/tmp/scan_wt_%d" % i])
+    if "--merge" in sys.argv and os.path.exists("/tmp/scan_%s.json" % kind):
+        # partial scan (--only / --props): update the recorded full scan instead of replacing it
+        old = json.load(open("/tmp/scan_%s.json" % kind))
+        for sid, fired in res.items():
+            cur = {q: v for q, v in old.get(sid, {}).items() if q not in props}
+            cur.update(fired)
+            old[sid] = cur
+        res = old
     with open("/tmp/scan_%s.json" % kind, "w") as fh:
         json.dump(res, fh, indent=1)
     n = sum(1 for v in res.values() if v)
